@@ -13,11 +13,13 @@
 EXTENDS Naturals, Integers, Sequences, FiniteSets, TLC
 
 Positions == {"from", "join", "in", "cmp", "select-item", "cte", "insert-select", "setop-base", "setop-operand", "create-as",
-              "in-bool-group", "cmp-bool-group", "in-not", "cmp-not", "join-on-operand", "having-operand", "function-arg", "case-branch"}
+              "in-bool-group", "cmp-bool-group", "in-not", "cmp-not", "join-on-operand", "having-operand", "function-arg", "case-branch",
+              \* the same positions inside an outer statement that qualifies its own columns (a join): nothing of that may reach the subquery
+              "from-joined", "in-joined", "cte-joined", "select-item-joined"}
 Embed == [p \in Positions |->
-            CASE p \in {"from", "join"} -> [paren |-> TRUE, alias |-> TRUE]
-              [] p = "select-item" -> [paren |-> TRUE, alias |-> TRUE]
-              [] p \in {"in", "cmp", "cte", "create-as", "in-bool-group", "cmp-bool-group", "in-not", "cmp-not", "join-on-operand", "having-operand",
+            CASE p \in {"from", "join", "from-joined"} -> [paren |-> TRUE, alias |-> TRUE]
+              [] p \in {"select-item", "select-item-joined"} -> [paren |-> TRUE, alias |-> TRUE]
+              [] p \in {"in", "cmp", "cte", "create-as", "in-joined", "cte-joined", "in-bool-group", "cmp-bool-group", "in-not", "cmp-not", "join-on-operand", "having-operand",
                          "function-arg", "case-branch"} -> [paren |-> TRUE, alias |-> FALSE]
               [] p = "insert-select" -> [paren |-> FALSE, alias |-> FALSE]
               [] OTHER -> [paren |-> TRUE, alias |-> FALSE]]     \* set operands: bracketed unless the dialect does not wrap
